@@ -47,11 +47,13 @@ def create_query_token_func(session, token_model):
 
     def query_token(token, token_type_hint):
         q = session.query(token_model)
-        if token_type_hint == "access_token":
+        # RFC 7009 section 2.1: the hint only says where to look first; when the
+        # token is not found there the search MUST be extended to the other types.
+        if token_type_hint == "refresh_token":
+            item = q.filter_by(refresh_token=token).first()
+            if item:
+                return item
             return q.filter_by(access_token=token).first()
-        elif token_type_hint == "refresh_token":
-            return q.filter_by(refresh_token=token).first()
-        # without token_type_hint
         item = q.filter_by(access_token=token).first()
         if item:
             return item
